@@ -141,6 +141,19 @@ func runAnalysisProp(prop string, r *Rng, n int, tier string) {
 			{"ALTER TABLE archive.books RENAME TO tomes;\n", "tomes", "archive.tomes"},
 			{"ALTER TABLE venues RENAME TO places;\nALTER TABLE places SET SCHEMA archive;\n", "places", "archive.places"},
 		}
+		// unqualified user-defined types (default schema) on tables of another schema that has a type of the same name
+		udtDDL := "CREATE SCHEMA app;\nCREATE TYPE app.book_kind AS ENUM ('x', 'y');\nCREATE TABLE app.jobs (id bigint NOT NULL, state book_kind NOT NULL, prev book_kind, own app.book_kind);\n"
+		for ui, f := range []struct{ cmd, sql string; n int }{
+			{":many", "SELECT * FROM app.jobs", 0},
+			{":many", "SELECT id, state, prev, own FROM app.jobs", 0},
+			{":many", "WITH recent AS (SELECT id, state, prev, own FROM app.jobs) SELECT id, state, prev, own FROM recent", 0},
+			{":many", "WITH recent AS (SELECT * FROM app.jobs) SELECT recent.* FROM recent", 0},
+			{":one", "UPDATE app.jobs SET state = $1 WHERE id = $2 RETURNING id, state, own", 2},
+			{":many", "SELECT j.state, j.own FROM app.jobs j JOIN books b ON b.kind = j.state", 0},
+		} {
+			q := QStmt{Name: fmt.Sprintf("U%d", ui), Cmd: f.cmd, SQL: f.sql, NParams: f.n, Tags: []string{"udt-other-schema"}}
+			emitAnalysis(prop, fmt.Sprintf("udt-%d", ui), "postgresql", corpusPG+udtDDL, q, "", ui%2 == 0, nil)
+		}
 		for hi, h := range hist {
 			if h.table == "" {
 				continue
